@@ -25,6 +25,14 @@ def canon(t, memo=None):
     if t in memo:
         return memo[t]
     new = tuple(canon(x, memo) if isinstance(x, tuple) else x for x in t)
+    if new[0] == "cmp" and len(new) == 4 and isinstance(new[2], tuple) and new[2][:2] == ("call", "len") and len(new[2][2]) == 1 \
+            and isinstance(new[2][2][0], tuple) and new[2][2][0][0] == "items" and is_const(new[3]) and isinstance(new[3][1], int):
+        # the number of children of a kind compared with 0 / 1: whether there are any
+        some = {("Gt", 0): True, ("GtE", 1): True, ("NotEq", 0): True, ("Lt", 1): False, ("LtE", 0): False, ("Eq", 0): False}.get((new[1], new[3][1]))
+        if some is not None:
+            new = new[2][2][0] if some else ("not", new[2][2][0])
+    if new[0] == "cond" and isinstance(new[1], tuple) and new[1][0] == "not" and isinstance(new[1][1], tuple) and new[1][1][0] == "items":
+        new = ("cond", new[1][1], new[3], new[2])
     r = new
     if new[0] == "item" and isinstance(new[1], tuple) and new[1][0] == "attr" and new[1][2] == N.SUB_ITEMS:
         r = ("items", new[1][1], new[2][1] if is_const(new[2]) else new[2])
@@ -62,6 +70,19 @@ def _never_falsy_kind(k) -> bool:
         b = bnf()
         passed_through = k in g.rules and g.rules[k].ast and k not in b.branches and b.default_returns_node
         _NF_KINDS[k] = plain and (passed_through or k not in g.rules)
+        if not _NF_KINDS[k] and k in b.branches:
+            # a child the builder makes itself: never false when every value its branch returns is None or a dict that always
+            # has an entry (a key whose value is never None - a drawn id, a constant, a new object - and is not filtered out)
+            _NF_KINDS[k] = False        # (re-entrancy: the branch's own terms may mention the kind)
+            def never_empty_dict(v):
+                v = nf.strip_dropnone(v)
+                if not (isinstance(v, tuple) and v and v[0] == "ref" and isinstance(b.I.obj(v), HDict)):
+                    return False
+                d = nf.resolve_ref_dict(b.I, v, b.tree)
+                sure = lambda val: val[0] in ("drawn", "ref", "fstr") or (is_const(val) and val[1] is not None)
+                return bool(d) and any(not isinstance(key, tuple) and not g_ and sure(nf.strip_dropnone(val)) for key, (val, g_) in d.items())
+            rets = [v for v, _, _ in b.branches[k].returns]
+            _NF_KINDS[k] = bool(rets) and all(is_const(v, None) or never_empty_dict(v) for v in rets)
     return _NF_KINDS[k]
 
 
@@ -1008,9 +1029,13 @@ def rule_locations(rep: Report, rid="C04.items") -> None:
                     tok, it = ("elem", loops[-2]), ("elem", loops[-1])
                     col = ("item", it, const("column"))
                     ld = None
-                    if loc[0] == "cond" and loc[1] == col and loc[3] == ("attr", tok, "location"):
-                        ld = nf.resolve_ref_dict(I, loc[2], b.tree)
-                    elif loc[0] == "ref":
+                    if loc[0] == "cond":
+                        # whatever is tested about the item's column is decided by what such a column is: a 1-based position
+                        # (never None, never 0).  The selection must come out the same for every such value
+                        picks = {nf.simplify(I, loc, {col: const(v)}) for v in (1, 2, 3, 80)}
+                        if len(picks) == 1:
+                            loc = picks.pop()
+                    if loc[0] == "ref":
                         ld = nf.resolve_ref_dict(I, loc, b.tree)
                     ok = ld is not None and set(ld) == {"line", "column"} and ld["column"][0] == col \
                         and ld["line"][0] == ("item", ("attr", tok, "location"), const("line"))
